@@ -60,6 +60,14 @@ func c02Powers(t *rapid.T) []int64 {
 	return out
 }
 
+func c02Indices(n int) []int {
+	out := make([]int, n)
+	for i := range out {
+		out[i] = i
+	}
+	return out
+}
+
 func splitInt(t *rapid.T, dst []int64, total int64) {
 	rem := total
 	for i := range dst {
@@ -372,12 +380,18 @@ func TestC02_OracleSafety(t *testing.T) {
 					t.Fatalf("override to %d left cursor at %d", prevCursor, got)
 				}
 				bi := (ai + rapid.IntRange(1, len(m)-1).Draw(t, "competitor")) % len(m)
+				// ... or the earlier voters simply repeat their vote for the same claim (their power must not count twice)
+				repeat := rapid.Bool().Draw(t, "repeatSameClaim")
 				var pvs []pv
 				var txs [][]byte
-				for _, v := range c.Vals {
+				for _, vi := range rapid.Permutation(c02Indices(len(c.Vals))).Draw(t, "voteOrder") {
+					v := c.Vals[vi]
 					var cl c02Claim
 					if votes[m[ai].id()][v.Val().String()] {
 						cl = m[bi]
+						if repeat {
+							cl = m[ai]
+						}
 					} else {
 						switch rapid.IntRange(0, 2).Draw(t, "side") {
 						case 0:
